@@ -51,24 +51,29 @@ TOOLS = {
             lambda f: f["b_cfl"], None),
     "inter_intra": ({"inter_intra_compound": 0}, {"inter_intra_compound": 1}, False,
                     lambda f: f["b_interintra"], "enable_interintra_compound"),
-    "superres": ({"superres_mode": 0}, {"superres_mode": 1, "superres_denom": 12, "superres_kf_denom": 12}, False,
+    # superres is only applied when the sequence enables restoration, and crashes in tpl_mc_flow with TPL on (owned by C11)
+    "superres": ({"superres_mode": 0}, {"superres_mode": 1, "superres_denom": 16, "superres_kf_denom": 16, "enable_tpl_la": 0,
+                                        "enable_restoration_filtering": 1}, False,
                  lambda f: int(f["superres_denominator"] != 8 or f["superres_upscaled_width"] != f["frame_width"]), "enable_superres"),
 }
 CONTENTS = ("grad", "screen", "box", "noise")
+# content with a rotating + zooming camera (src/hdr_enc.c): the only content on which the encoder selects a global motion model
+HDR_ENC_CONTENTS = ("rotzoom",)
+HDR_ENC_TOOLS = ("global_motion", "warped_motion", "obmc", "inter_intra")  # switches hdr_enc's field table knows
 TILE_SIZES = ((64, 64), (128, 128), (256, 256), (512, 128), (1024, 64))
 TILE_SIZES_T = ((4096, 64), (64, 2160))
 
 
 def analyse(a, pre, out, blocks):
     """Runs the session + hdr_dump.  Returns (r, d) or None after setting out['status']."""
-    r = hdr_dump.run_enc(a, pre, timeout=240)
+    r = hdr_dump.run_hdr_enc(a, pre) if a.get("content") in HDR_ENC_CONTENTS else hdr_dump.run_enc(a, pre, timeout=240)
     st = hdr_dump.session_status(r)
     if st:
         out["status"] = st
         return None
     d = hdr_dump.dump(pre, blocks=blocks)
     if not hdr_dump.usable(d):
-        out["status"] = "svtdec-failed"
+        out["status"] = "svtdec-failed:" + hdr_dump.why_unusable(d)
         return None
     ok, msg = hdr_dump.validate(pre, d)
     if not ok:
@@ -147,32 +152,59 @@ def presets(tier):
     return (8, 4) if tier == "quick" else (8, 4, 6, 2, 0)
 
 
+def contents(tier):
+    return ("screen", "box") if tier == "quick" else CONTENTS
+
+
+# quick only: tools that the quick presets never select get their off/on runs at one more preset (inter-intra needs preset <= 2)
+QUICK_EXTRA_PRESETS = {"inter_intra": (2,)}
+
+
+def tile_sizes(tier):
+    return TILE_SIZES + (TILE_SIZES_T if tier == "thorough" else ())
+
+
 def cases_for(tier):
     cs = []
-    for p, scm, c in itertools.product(presets(tier), (0, 1, 2), CONTENTS):
-        base = {"enc_mode": p, "screen_content_mode": scm, "content": c}
-        cs.append(mk("default/preset=%d,scm=%d/%s" % (p, scm, c), {"kind": "default"}, 128, 128, 10, **base))
-        for t, (off, on, need_scm1, _, _) in TOOLS.items():
-            if need_scm1 and scm != 1:
-                continue  # set_parameter only accepts an explicit intrabc_mode together with screen_content_mode=1
+
+    def tool_cases(t, base, w, h, lab):
+        off, on = TOOLS[t][0], TOOLS[t][1]
+        for kind, st in (("off", off), ("on", on)):
+            if st is None:
+                continue
             cfg = dict(base)
-            cfg.update(off)
-            cs.append(mk("%s=off/preset=%d,scm=%d/%s" % (t, p, scm, c), {"kind": "off", "tool": t}, 128, 128, 10, **cfg))
-            if on is not None:
-                cfg = dict(base)
-                cfg.update(on)
-                cs.append(mk("%s=on/preset=%d,scm=%d/%s" % (t, p, scm, c), {"kind": "on", "tool": t}, 128, 128, 10, **cfg))
+            cfg.update(st)
+            cs.append(mk("%s=%s/%s" % (t, kind, lab), {"kind": kind, "tool": t}, w, h, 10, **cfg))
+
+    for p, scm, c in itertools.product(presets(tier), (0, 1, 2), contents(tier)):
+        base = {"enc_mode": p, "screen_content_mode": scm, "content": c}
+        lab = "preset=%d,scm=%d/%s" % (p, scm, c)
+        cs.append(mk("default/" + lab, {"kind": "default"}, 128, 128, 10, **base))
+        for t in TOOLS:
+            if TOOLS[t][2] and scm != 1:
+                continue  # set_parameter only accepts an explicit intrabc_mode together with screen_content_mode=1
+            tool_cases(t, base, 128, 128, lab)
         # every switch off at once
         cfg = dict(base)
         offs = [t for t, spec in TOOLS.items() if not (spec[2] and scm != 1)]
         for t in offs:
             cfg.update(TOOLS[t][0])
-        cs.append(mk("all=off/preset=%d,scm=%d/%s" % (p, scm, c), {"kind": "alloff", "tools": offs}, 128, 128, 10, **cfg))
+        cs.append(mk("all=off/" + lab, {"kind": "alloff", "tools": offs}, 128, 128, 10, **cfg))
+    if tier == "quick":
+        for t, ps in QUICK_EXTRA_PRESETS.items():
+            for p, scm, c in itertools.product(ps, (0, 1, 2), contents(tier)):
+                tool_cases(t, {"enc_mode": p, "screen_content_mode": scm, "content": c}, 128, 128, "preset=%d,scm=%d/%s" % (p, scm, c))
+    # rotating + zooming content (hdr_enc): the switches its field table knows
+    for p, scm in itertools.product(presets(tier), (0,) if tier == "quick" else (0, 1, 2)):
+        base = {"enc_mode": p, "screen_content_mode": scm, "content": "rotzoom"}
+        lab = "preset=%d,scm=%d/rotzoom" % (p, scm)
+        cs.append(mk("default/" + lab, {"kind": "default"}, 256, 256, 10, **base))
+        for t in (HDR_ENC_TOOLS[:2] if tier == "quick" else HDR_ENC_TOOLS):
+            tool_cases(t, base, 256, 256, lab)
     # tiles: preset 8 codes 64x64 superblocks, preset 4 (TPL off) 128x128 superblocks
-    sizes = TILE_SIZES + (TILE_SIZES_T if tier == "thorough" else ())
-    for (w, h), (p, sb), tr, tc in itertools.product(sizes, ((8, 64), (4, 128)), range(0, 7), range(0, 5)):
+    for (w, h), (p, sb), tr, tc in itertools.product(tile_sizes(tier), ((8, 64), (4, 128)), range(0, 7), range(0, 5)):
         cs.append(mk("tiles/%dx%d,sb=%d,tile_rows=%d,tile_columns=%d" % (w, h, sb, tr, tc), {"kind": "tiles"}, w, h,
-                     2 if w * h > 512 * 128 else 3, content="grad", enc_mode=p, super_block_size=sb, enable_tpl_la=0, tile_rows=tr, tile_columns=tc))
+                     2, content="grad", enc_mode=p, super_block_size=sb, enable_tpl_la=0, tile_rows=tr, tile_columns=tc))
     # most expensive first
     cs.sort(key=lambda c: (c[1]["enc_mode"], -c[1]["w"] * c[1]["h"] * c[1]["n"]))
     return cs
@@ -237,10 +269,14 @@ def run(tier):
                     "verdict": "VACUOUS" if not used else "checked",
                     "on_used_in": sorted(on_where.get(base, ()))[:6]}
     cov = {"evaluations": len(res), "distinct_nontrivial": len(hashes), "exhaustive": bool(complete), "enumerated": len(cases),
-           "rule": "tools: each of %d switches off and on x presets %s x screen_content_mode {0,1,2} x content {grad,screen,box,noise}, 128x128, 10 pictures, "
-                   "hierarchical_levels 3, plus the default configuration of every (preset, scm, content); tiles: tile_rows 0..6 x tile_columns 0..4 x sizes %s x "
-                   "superblock {64 (preset 8), 128 (preset 4, TPL off)}, 2-3 pictures; every coded frame of every stream inspected; distinct = distinct packet-stream hashes"
-                   % (len(TOOLS), list(presets(tier)), ["%dx%d" % s for s in TILE_SIZES + (TILE_SIZES_T if tier == "thorough" else ())]),
+           "rule": "tools: each of %d switches off and on (and all off at once) x presets %s x screen_content_mode {0,1,2} x content %s, 128x128, 10 pictures, "
+                   "hierarchical_levels 3, plus the default configuration of every (preset, scm, content)%s; %s off and on also on a rotating+zooming 256x256 content "
+                   "(hdr_enc, scm %s); tiles: tile_rows 0..6 x tile_columns 0..4 x sizes %s x superblock {64 (preset 8), 128 (preset 4, TPL off)}, 2 pictures; "
+                   "every coded frame of every stream inspected; distinct = distinct packet-stream hashes"
+                   % (len(TOOLS), list(presets(tier)), list(contents(tier)),
+                      "; inter-intra off/on additionally at preset 2" if tier == "quick" else "",
+                      "global motion / warped motion" if tier == "quick" else "global motion / warped motion / OBMC / inter-intra",
+                      "0" if tier == "quick" else "{0,1,2}", ["%dx%d" % s for s in tile_sizes(tier)]),
            "samples": samples, "status_counts": stat, "not_evaluable_examples": notok, "info": info, "tools": tools,
            "vacuous_tools": sorted(t for t, v in tools.items() if v["verdict"] == "VACUOUS"),
            "oracle": "tool off => no frame-level or block-level use in any coded frame; parsed tile layout == AV1 tile_info() result for the requested log2 values"}
